@@ -838,3 +838,90 @@ def checked_set(tier, seed):
             lines.append("512 0 0 0 0 0 0 0 %d - ; V 1 %d %d %d %d %s %d %s %d %s ; %s ; 3" % (
                 i, st, at, sb, ab, fl, len(enc), " ".join(str(x) for x in enc), len(im), " ".join(str(b) for b in im), m))
     return lines, {"definitions": len(defs), "modules": len(mods), "rejected_definitions": rejected}, None
+
+
+# ----------------------------------------------------------------------------- ByteEq / ByteHash (C18)
+BYTES_MODULE = r'''
+use bytemuck::{ByteEq, ByteHash, NoUninit, Pod, Zeroable};
+use core::hash::{Hash, Hasher};
+#[derive(Clone, Copy, Pod, Zeroable, ByteEq, ByteHash)] #[repr(C)] pub struct F1 { pub a: f32, pub b: u32 }
+#[derive(Clone, Copy, Pod, Zeroable, ByteEq, ByteHash)] #[repr(transparent)] pub struct M(pub f32);
+#[derive(Clone, Copy, Pod, Zeroable, ByteEq, ByteHash)] #[repr(transparent)] pub struct S64 { pub v: f64 }
+#[derive(Clone, Copy, NoUninit, ByteEq, ByteHash)] #[repr(C)] pub struct CB { pub c: char, pub b: bool, pub x: u8, pub y: u16 }
+#[derive(Clone, Copy, Pod, Zeroable, ByteEq, ByteHash)] #[repr(C)] pub struct Key { pub a: u32, pub b: [u8; 8] }
+#[derive(Clone, Copy, Pod, Zeroable, ByteEq, ByteHash)] #[repr(transparent)] pub struct Gen<const N: usize> { pub a: [u8; N] }
+#[derive(Clone, Copy, Pod, Zeroable, ByteEq, ByteHash)] #[repr(C)] pub struct Z0 {}
+
+// three hashers: std's, one that records every call, one that is sensitive to how the bytes are chunked
+#[derive(Default)] pub struct Rec { pub calls: Vec<(u8, Vec<u8>)> }
+impl Hasher for Rec {
+  fn finish(&self) -> u64 { 0 }
+  fn write(&mut self, b: &[u8]) { self.calls.push((0, b.to_vec())); }
+  fn write_u8(&mut self, i: u8) { self.calls.push((1, vec![i])); }
+  fn write_u32(&mut self, i: u32) { self.calls.push((4, i.to_ne_bytes().to_vec())); }
+  fn write_u64(&mut self, i: u64) { self.calls.push((8, i.to_ne_bytes().to_vec())); }
+  fn write_usize(&mut self, i: usize) { self.calls.push((9, i.to_ne_bytes().to_vec())); }
+}
+#[derive(Default)] pub struct Fx(pub u64);
+impl Hasher for Fx {
+  fn finish(&self) -> u64 { self.0 }
+  fn write(&mut self, b: &[u8]) { self.0 = (self.0.rotate_left(5) ^ (b.len() as u64)).wrapping_mul(0x517cc1b727220a95); for x in b { self.0 = (self.0.rotate_left(5) ^ (*x as u64)).wrapping_mul(0x517cc1b727220a95); } }
+  fn write_u64(&mut self, i: u64) { self.0 = (self.0.rotate_left(7) ^ i).wrapping_mul(0x9E3779B97F4A7C15); }
+}
+fn h_std<T: Hash>(v: &T) -> u64 { let mut h = std::collections::hash_map::DefaultHasher::new(); v.hash(&mut h); h.finish() }
+fn h_fx<T: Hash>(v: &T) -> u64 { let mut h = Fx::default(); v.hash(&mut h); h.finish() }
+fn rec_ok<T: Hash + NoUninit>(v: &T) -> bool { let mut h = Rec::default(); v.hash(&mut h); let b = bytemuck::bytes_of(v);
+  if b.is_empty() { h.calls.iter().all(|c| c.0 == 0 && c.1.is_empty()) } else { h.calls.len() == 1 && h.calls[0].0 == 0 && h.calls[0].1 == b } }
+fn pairs<T: Copy + PartialEq + Hash + NoUninit>(tag: u32, pool: &[T], out: &mut Vec<String>) {
+  // the values live at consecutive addresses of an array: differently aligned modulo 8
+  for a in pool { for b in pool {
+    let be = bytemuck::bytes_of(a) == bytemuck::bytes_of(b);
+    let eq = a == b; let ne_ok = (a != b) == !eq;
+    let l1 = !be || h_std(a) == h_std(b); let l2 = !be || h_fx(a) == h_fx(b);
+    out.push(format!("521 {} {} {} {} {} {} {} {}", tag, eq as u8, be as u8, ne_ok as u8, l1 as u8, l2 as u8, rec_ok(a) as u8, rec_ok(b) as u8));
+  } }
+  // reflexivity / symmetry / transitivity over the pool
+  let mut refl = true; let mut sym = true; let mut trans = true;
+  for a in pool { refl &= a == a; for b in pool { sym &= (a == b) == (b == a); for c in pool { if a == b && b == c { trans &= a == c; } } } }
+  out.push(format!("523 {} {} {} {}", tag, refl as u8, sym as u8, trans as u8));
+  // slices of length 0..=4 at start offsets 0..3: hash_slice must be one write of the concatenated bytes
+  let arr: Vec<T> = pool.iter().cycle().take(8).copied().collect();
+  for len in 0..=4usize { for off in 0..3usize { for off2 in 0..3usize {
+    let s1 = &arr[off..off + len]; let s2 = &arr[off2..off2 + len];
+    let b1: &[u8] = bytemuck::cast_slice(s1); let b2: &[u8] = bytemuck::cast_slice(s2); let be = b1 == b2;
+    let mut r = Rec::default(); T::hash_slice(s1, &mut r);
+    let rok = if b1.is_empty() { r.calls.iter().all(|c| c.0 == 0 && c.1.is_empty()) } else { r.calls.len() == 1 && r.calls[0].0 == 0 && r.calls[0].1 == b1 };
+    let mut f1 = Fx::default(); T::hash_slice(s1, &mut f1); let mut f2 = Fx::default(); T::hash_slice(s2, &mut f2);
+    let law = !be || f1.finish() == f2.finish();
+    out.push(format!("522 {} {} {} {} {}", tag, len, be as u8, law as u8, rok as u8));
+  } } }
+}
+pub fn facts() -> String {
+  let mut out = vec![];
+  let nan1 = f32::from_bits(0x7FC0_0000); let nan2 = f32::from_bits(0x7FC0_0001); let nan3 = f32::from_bits(0xFFC1_2345); let snan = f32::from_bits(0x7FA0_0000);
+  pairs(1, &[F1 { a: 0.0, b: 1 }, F1 { a: -0.0, b: 1 }, F1 { a: nan1, b: 1 }, F1 { a: nan1, b: 1 }, F1 { a: nan2, b: 1 }, F1 { a: 1.5, b: 1 }, F1 { a: 1.5, b: 2 }, F1 { a: nan3, b: 0 }], &mut out);
+  pairs(2, &[M(0.0), M(-0.0), M(nan1), M(nan1), M(nan2), M(snan), M(1.0), M(f32::from_bits(0x3F80_0001)), M(f32::INFINITY)], &mut out);
+  pairs(3, &[S64 { v: 0.0 }, S64 { v: -0.0 }, S64 { v: f64::NAN }, S64 { v: f64::NAN }, S64 { v: f64::from_bits(0x7FF8_0000_0000_0001) }, S64 { v: 2.5 }], &mut out);
+  pairs(4, &[CB { c: 'a', b: true, x: 1, y: 2 }, CB { c: 'a', b: true, x: 1, y: 2 }, CB { c: 'b', b: true, x: 1, y: 2 }, CB { c: 'a', b: false, x: 1, y: 2 }, CB { c: 'a', b: true, x: 1, y: 3 }, CB { c: '\u{10FFFF}', b: false, x: 0, y: 0 }], &mut out);
+  pairs(5, &[Key { a: 1, b: [0; 8] }, Key { a: 1, b: [0; 8] }, Key { a: 1, b: [0, 0, 0, 0, 0, 0, 0, 1] }, Key { a: 2, b: [0; 8] }, Key { a: 1, b: [0; 8] }, Key { a: 1, b: [0; 8] }], &mut out);
+  pairs(6, &[Gen::<5> { a: [1, 2, 3, 4, 5] }, Gen::<5> { a: [1, 2, 3, 4, 5] }, Gen::<5> { a: [1, 2, 3, 4, 6] }, Gen::<5> { a: [0; 5] }, Gen::<5> { a: [1, 2, 3, 4, 5] }, Gen::<5> { a: [1, 2, 3, 4, 5] }], &mut out);
+  pairs(7, &[Gen::<0> { a: [] }, Gen::<0> { a: [] }], &mut out);
+  pairs(8, &[Z0 {}, Z0 {}], &mut out);
+  out.join("|")
+}
+'''
+
+
+def bytes_set(tier, seed):
+    v, f, err = compile_verdicts("bytes-" + tier, PRELUDE, [("b0", BYTES_MODULE)])
+    if err:
+        return [], {}, err
+    if v.get("b0") is not None or "b0" not in f:
+        return [], {}, "the ByteEq/ByteHash module does not compile: %s" % v.get("b0")
+    lines = []
+    for item in f["b0"].split("|"):
+        w = item.split()
+        if not w:
+            continue
+        lines.append("%s 0 0 0 0 0 0 0 %s - ; V %s ; b0 ; 3" % (w[0], w[1], " ".join(w[2:])))
+    return lines, {"definitions": 8, "modules": 1}, None
